@@ -6,6 +6,11 @@
 
    [fixed_P17 = true] is the code with the locality test in IgnoreRules::check
    (repo-patches/51-fix-P17-ignore-locality.diff), [fixed_P17 = false] the code without it.
+   [fixed_P35 = true] (argument f35) is the code in which IgnoreRules::check consults the global ignore
+   patterns first (repo-patches/78-fix-P35-global-ignore-final.diff), [false] the code without it.
+   [fixed_P36 = true] (argument f36) is Pattern::new dropping the last character, not the last byte
+   (repo-patches/79-fix-P36-pattern-multibyte-last-char.diff).  The check derives all three switches from
+   the behaviour of the code on every run (vlib/c09.py probe_switches).
    Every walker theorem holds for EVERY matcher [gm]; the witnesses use [glob_matches]. *)
 From Coq Require Import List Bool NArith Permutation Lia.
 From XV Require Import Glob.Match Glob.Pattern Glob.Proofs Walker.Model Walker.Proofs Walker.Special Gen.CommonIgnore.
@@ -62,6 +67,15 @@ Definition ex4_ch : list (name * tree) :=
    (s_b, Dir (Some [102; 111; 111; 46; 116; 109; 112; 10]) [([46; 120; 118; 99; 105; 103; 110; 111; 114; 101], File); (s_foo, File)]);
    (s_c, Dir None [])].
 
+(* .xvcignore = "donn\u00e9es/\u00e9" at the root, donn\u00e9es/{\u00e9, x.txt} *)
+Definition s_donnees : bytes := [100; 111; 110; 110; 195; 169; 101; 115].   (* 'donn\u00e9es' *)
+Definition s_e_acute : bytes := [195; 169].   (* '\u00e9' *)
+Definition l_donnees_e : bytes := [100; 111; 110; 110; 195; 169; 101; 115; 47; 195; 169].   (* 'donn\u00e9es/\u00e9' *)
+Definition ex5_ign : option bytes := Some (l_donnees_e ++ [10]).
+Definition ex5_ch : list (name * tree) :=
+  [([46; 120; 118; 99; 105; 103; 110; 111; 114; 101], File);
+   (s_donnees, Dir None [(s_e_acute, File); ([120; 46; 116; 120; 116], File)])].
+
 (* thread 0 takes every step (queue position k at its first pop), then both threads leave *)
 Definition sched_one (k : nat) : list (nat * nat) := (O, k) :: repeat (O, O) 40 ++ [(1%nat, O)].
 
@@ -116,176 +130,226 @@ Theorem applies_only_below pat dir s :
 Proof. exact (applies_local pat dir s). Qed.
 
 (* ---- 2. walk_parallel: every schedule, every number of threads ---------------------------------------------- *)
-(* [walk_deterministic gm fixed globals ign ch] (Walker/Proofs.v): for every number of threads n >= 1 and
+(* [walk_deterministic gm fixed f35 globals ign ch] (Walker/Proofs.v): for every number of threads n >= 1 and
    every schedule, if the run reaches a final configuration (all threads have left), its output is a
    permutation of spec_walk and has no duplicates. *)
 Definition C09_full : Prop :=
-  forall gm fixed globals ign ch, wf_tree (Dir ign ch) = true -> walk_deterministic gm fixed globals ign ch.
+  forall gm fixed f35 globals ign ch, wf_tree (Dir ign ch) = true -> walk_deterministic gm fixed f35 globals ign ch.
 
-Theorem par_walk_deterministic gm globals ign ch :
-  wf_tree (Dir ign ch) = true -> walk_deterministic gm true globals ign ch.
+Theorem par_walk_deterministic gm f35 globals ign ch :
+  wf_tree (Dir ign ch) = true -> walk_deterministic gm true f35 globals ign ch.
 Proof.
-  exact (fun Hwf => par_walk_deterministic_lemma gm true globals ign ch Hwf (local_of_fixed gm true ign ch Hwf eq_refl)).
+  exact (fun Hwf => par_walk_deterministic_lemma gm true f35 globals ign ch Hwf (local_of_fixed gm true ign ch Hwf eq_refl)).
 Qed.
 
 (* the code as it is (no locality test): the same holds for every tree outside the known class *)
-Theorem par_walk_deterministic_outside_P17 gm fixed globals ign ch :
-  wf_tree (Dir ign ch) = true -> known_P17 gm (Dir ign ch) = false -> walk_deterministic gm fixed globals ign ch.
+Theorem par_walk_deterministic_outside_P17 gm fixed f35 globals ign ch :
+  wf_tree (Dir ign ch) = true -> known_P17 gm (Dir ign ch) = false -> walk_deterministic gm fixed f35 globals ign ch.
 Proof.
-  exact (fun Hwf Hk => par_walk_deterministic_lemma gm fixed globals ign ch Hwf (local_of_not_known gm fixed ign ch Hk)).
+  exact (fun Hwf Hk => par_walk_deterministic_lemma gm fixed f35 globals ign ch Hwf (local_of_not_known gm fixed ign ch Hk)).
 Qed.
 
 (* ... and fails inside it: two schedules of the same tree with different results *)
 Theorem par_walk_nondeterministic_refuted :
-  let c1 := par_walk glob_matches false 2 common_ignore_patterns None ex1_ch (sched_one 0) in
-  let c2 := par_walk glob_matches false 2 common_ignore_patterns None ex1_ch (sched_one 1) in
+  let c1 := par_walk glob_matches false false 2 common_ignore_patterns None ex1_ch (sched_one 0) in
+  let c2 := par_walk glob_matches false false 2 common_ignore_patterns None ex1_ch (sched_one 1) in
   final c1 = true /\ final c2 = true /\ length (c_out c1) <> length (c_out c2) /\
-  length (c_out c2) <> length (spec_walk glob_matches false common_ignore_patterns None ex1_ch).
+  length (c_out c2) <> length (spec_walk glob_matches false false common_ignore_patterns None ex1_ch).
 Proof. vm_compute. repeat split; discriminate. Qed.
 
 Theorem C09_full_refuted_P17 : ~ C09_full.
 Proof.
   intros H.
-  destruct (H glob_matches false common_ignore_patterns None ex1_ch eq_refl 2%nat (sched_one 1)) as [Hp _];
+  destruct (H glob_matches false false common_ignore_patterns None ex1_ch eq_refl 2%nat (sched_one 1)) as [Hp _];
     [repeat constructor|vm_compute; reflexivity|].
   apply Permutation_length in Hp. vm_compute in Hp. discriminate Hp.
 Qed.
 
 (* ---- 3. walk_serial -------------------------------------------------------------------------------------------- *)
-Theorem serial_eq_spec gm globals ign ch :
+Theorem serial_eq_spec gm f35 globals ign ch :
   wf_tree (Dir ign ch) = true ->
-  exists out, serial_walk gm true (S (dir_count (Dir ign ch))) globals ign ch = Some out /\
-              Permutation out (spec_walk gm true globals ign ch) /\ NoDup out.
+  exists out, serial_walk gm true f35 (S (dir_count (Dir ign ch))) globals ign ch = Some out /\
+              Permutation out (spec_walk gm true f35 globals ign ch) /\ NoDup out.
 Proof.
-  exact (fun Hwf => serial_eq_spec_lemma gm true globals ign ch Hwf (local_of_fixed gm true ign ch Hwf eq_refl)).
+  exact (fun Hwf => serial_eq_spec_lemma gm true f35 globals ign ch Hwf (local_of_fixed gm true ign ch Hwf eq_refl)).
 Qed.
 
-Theorem serial_eq_spec_outside_P17 gm fixed globals ign ch :
+Theorem serial_eq_spec_outside_P17 gm fixed f35 globals ign ch :
   wf_tree (Dir ign ch) = true -> known_P17 gm (Dir ign ch) = false ->
-  exists out, serial_walk gm fixed (S (dir_count (Dir ign ch))) globals ign ch = Some out /\
-              Permutation out (spec_walk gm fixed globals ign ch) /\ NoDup out.
+  exists out, serial_walk gm fixed f35 (S (dir_count (Dir ign ch))) globals ign ch = Some out /\
+              Permutation out (spec_walk gm fixed f35 globals ign ch) /\ NoDup out.
 Proof.
-  exact (fun Hwf Hk => serial_eq_spec_lemma gm fixed globals ign ch Hwf (local_of_not_known gm fixed ign ch Hk)).
+  exact (fun Hwf Hk => serial_eq_spec_lemma gm fixed f35 globals ign ch Hwf (local_of_not_known gm fixed ign ch Hk)).
 Qed.
 
 Theorem serial_ne_spec_refuted :
-  exists out, serial_walk glob_matches false (S (dir_count (Dir None ex1_ch))) common_ignore_patterns None ex1_ch = Some out /\
-              length out <> length (spec_walk glob_matches false common_ignore_patterns None ex1_ch).
+  exists out, serial_walk glob_matches false false (S (dir_count (Dir None ex1_ch))) common_ignore_patterns None ex1_ch = Some out /\
+              length out <> length (spec_walk glob_matches false false common_ignore_patterns None ex1_ch).
 Proof. eexists. split; [vm_compute; reflexivity|vm_compute; discriminate]. Qed.
 
 (* both walkers report the same set *)
-Theorem serial_eq_parallel gm globals ign ch n sched out :
+Theorem serial_eq_parallel gm f35 globals ign ch n sched out :
   wf_tree (Dir ign ch) = true -> (1 <= n)%nat ->
-  final (par_walk gm true n globals ign ch sched) = true ->
-  serial_walk gm true (S (dir_count (Dir ign ch))) globals ign ch = Some out ->
-  Permutation out (c_out (par_walk gm true n globals ign ch sched)).
+  final (par_walk gm true f35 n globals ign ch sched) = true ->
+  serial_walk gm true f35 (S (dir_count (Dir ign ch))) globals ign ch = Some out ->
+  Permutation out (c_out (par_walk gm true f35 n globals ign ch sched)).
 Proof.
   intros Hwf Hn Hf Hs.
-  destruct (serial_eq_spec_lemma gm true globals ign ch Hwf (local_of_fixed gm true ign ch Hwf eq_refl)) as (out' & E & Hp & _).
+  destruct (serial_eq_spec_lemma gm true f35 globals ign ch Hwf (local_of_fixed gm true ign ch Hwf eq_refl)) as (out' & E & Hp & _).
   rewrite Hs in E. injection E as <-.
-  destruct (par_walk_deterministic_lemma gm true globals ign ch Hwf (local_of_fixed gm true ign ch Hwf eq_refl) n sched Hn Hf) as [Hp' _].
+  destruct (par_walk_deterministic_lemma gm true f35 globals ign ch Hwf (local_of_fixed gm true ign ch Hwf eq_refl) n sched Hn Hf) as [Hp' _].
   exact (Permutation_trans Hp (Permutation_sym Hp')).
 Qed.
 
 (* ---- 4. an ignored directory hides everything beneath it ------------------------------------------------------ *)
 (* every reported path, and every directory on the way to it, is "not ignored" under the rules of its own
    ancestors (RB q): nothing below a directory that those rules ignore is ever reported *)
-Theorem ignored_dir_hides_subtree gm fixed globals ign ch x p n r :
-  wf_tree (Dir ign ch) = true -> In x (spec_walk gm fixed globals ign ch) -> x = p ++ n :: r ->
-  is_ignore (check gm fixed (RB globals ign ch (p ++ [n])) (p ++ [n])) = false.
-Proof. exact (fun Hwf => ignored_dir_hides_subtree_lemma gm fixed globals ign ch Hwf x p n r). Qed.
+Theorem ignored_dir_hides_subtree gm fixed f35 globals ign ch x p n r :
+  wf_tree (Dir ign ch) = true -> In x (spec_walk gm fixed f35 globals ign ch) -> x = p ++ n :: r ->
+  is_ignore (check gm fixed f35 (RB globals ign ch (p ++ [n])) (p ++ [n])) = false.
+Proof. exact (fun Hwf => ignored_dir_hides_subtree_lemma gm fixed f35 globals ign ch Hwf x p n r). Qed.
 
-Theorem par_ignored_dir_hides_subtree gm globals ign ch nth sched x p n r :
+Theorem par_ignored_dir_hides_subtree gm f35 globals ign ch nth sched x p n r :
   wf_tree (Dir ign ch) = true -> (1 <= nth)%nat ->
-  final (par_walk gm true nth globals ign ch sched) = true ->
-  In x (c_out (par_walk gm true nth globals ign ch sched)) -> x = p ++ n :: r ->
-  is_ignore (check gm true (RB globals ign ch (p ++ [n])) (p ++ [n])) = false.
+  final (par_walk gm true f35 nth globals ign ch sched) = true ->
+  In x (c_out (par_walk gm true f35 nth globals ign ch sched)) -> x = p ++ n :: r ->
+  is_ignore (check gm true f35 (RB globals ign ch (p ++ [n])) (p ++ [n])) = false.
 Proof.
-  exact (fun Hwf Hn => par_ignored_dir_hides_subtree_lemma gm true globals ign ch nth sched x p n r Hwf
+  exact (fun Hwf Hn => par_ignored_dir_hides_subtree_lemma gm true f35 globals ign ch nth sched x p n r Hwf
                          (local_of_fixed gm true ign ch Hwf eq_refl) Hn).
 Qed.
 
 (* ---- 5. .xvc and .git (COMMON_IGNORE_PATTERNS as regenerated into Gen/CommonIgnore.v) ------------------ *)
-(* Full statement: no reported path has a component .xvc or .git. *)
-Definition C09_never_enters_full : Prop :=
-  forall ign ch x p n r, wf_tree (Dir ign ch) = true ->
-    In x (spec_walk glob_matches true common_ignore_patterns ign ch) -> x = p ++ n :: r -> is_special n = false.
+(* Full statement: no reported path has a component .xvc or .git -- every tree, every ignore file. *)
+Definition C09_never_enters_full (f35 : bool) : Prop :=
+  forall fixed ign ch x p n r, wf_tree (Dir ign ch) = true ->
+    In x (spec_walk glob_matches fixed f35 common_ignore_patterns ign ch) -> x = p ++ n :: r -> is_special n = false.
 
-(* refuted by a whitelist line: the root line "!.git" re-includes a/.git (whitelist patterns are consulted
-   before ignore patterns, and the built-in ones are ordinary ignore patterns) *)
-Theorem never_enters_xvc_git_refuted : ~ C09_never_enters_full.
+(* [fixed_P35 = false], the code without the repair: refuted by a whitelist line.  The root line "!.git"
+   re-includes a/.git (whitelist patterns are consulted before ignore patterns, and the built-in ones are
+   ordinary ignore patterns) -- finding P35 *)
+Theorem never_enters_xvc_git_refuted : ~ C09_never_enters_full false.
 Proof.
-  intros H. assert (E := H ex3_ign ex3_ch [s_a; s_git] [s_a] s_git [] eq_refl).
-  assert (Hin : In [s_a; s_git] (spec_walk glob_matches true common_ignore_patterns ex3_ign ex3_ch)) by (vm_compute; tauto).
+  intros H. assert (E := H true ex3_ign ex3_ch [s_a; s_git] [s_a] s_git [] eq_refl).
+  assert (Hin : In [s_a; s_git] (spec_walk glob_matches true false common_ignore_patterns ex3_ign ex3_ch)) by (vm_compute; tauto).
   specialize (E Hin eq_refl). vm_compute in E. discriminate E.
 Qed.
 
-(* Proved outside the known class [whitelists_special] (boolean).  For the transliterated fast-glob
-   matcher the needed fact -- "**/<name>" matches every string that ends in "/<name>" -- is itself a
-   theorem about Glob/Match.v (Glob/LastComponent.v: the globstar loop walks from component to component
-   and the literal comparison succeeds on the last one, within the default fuel). *)
+(* For the transliterated fast-glob matcher the needed fact -- "**/<name>" matches every string that ends
+   in "/<name>" -- is itself a theorem about Glob/Match.v (Glob/LastComponent.v: the globstar loop walks
+   from component to component and the literal comparison succeeds on the last one, within the default fuel). *)
 Theorem matcher_finds_xvc_git : matcher_finds_last_component glob_matches.
 Proof. exact glob_matches_finds_last_component. Qed.
 
-Theorem never_enters_xvc_git fixed ign ch x p n r :
-  whitelists_special glob_matches fixed ign ch = false ->
-  In x (spec_walk glob_matches fixed common_ignore_patterns ign ch) -> x = p ++ n :: r -> is_special n = false.
-Proof. exact (never_enters_xvc_git_glob_lemma fixed ign ch x p n r). Qed.
+(* [fixed_P35 = true], the repair (IgnoreRules::check consults the global ignore patterns first and their
+   verdict is final): the full statement, no class excluded, for the reference walk ... *)
+Theorem never_enters_xvc_git_fixed : C09_never_enters_full true.
+Proof. exact (fun fixed ign ch x p n r _ => never_enters_xvc_git_fixed_lemma fixed ign ch x p n r). Qed.
 
-Theorem par_never_enters_xvc_git ign ch nth sched x p n r :
+(* ... and for every run of walk_parallel (any schedule, any thread count) *)
+Theorem par_never_enters_xvc_git_fixed ign ch nth sched x p n r :
   wf_tree (Dir ign ch) = true -> (1 <= nth)%nat ->
-  whitelists_special glob_matches true ign ch = false ->
-  final (par_walk glob_matches true nth common_ignore_patterns ign ch sched) = true ->
-  In x (c_out (par_walk glob_matches true nth common_ignore_patterns ign ch sched)) -> x = p ++ n :: r -> is_special n = false.
+  final (par_walk glob_matches true true nth common_ignore_patterns ign ch sched) = true ->
+  In x (c_out (par_walk glob_matches true true nth common_ignore_patterns ign ch sched)) -> x = p ++ n :: r -> is_special n = false.
 Proof.
-  exact (fun Hwf Hn => par_never_enters_xvc_git_glob_lemma true ign ch nth sched x p n r Hwf
+  exact (fun Hwf Hn => par_never_enters_xvc_git_fixed_lemma true ign ch nth sched x p n r Hwf
+                         (local_of_fixed glob_matches true ign ch Hwf eq_refl) Hn).
+Qed.
+
+(* the known class of P35 is empty when the repair is in: the check suppresses nothing then *)
+Theorem whitelist_class_empty_when_fixed fixed ign ch : whitelists_special glob_matches fixed true ign ch = false.
+Proof. exact (whitelist_class_empty_lemma glob_matches fixed ign ch glob_matches_finds_last_component). Qed.
+
+(* For every setting of the switch: outside the known class [whitelists_special] (boolean). *)
+Theorem never_enters_xvc_git fixed f35 ign ch x p n r :
+  whitelists_special glob_matches fixed f35 ign ch = false ->
+  In x (spec_walk glob_matches fixed f35 common_ignore_patterns ign ch) -> x = p ++ n :: r -> is_special n = false.
+Proof. exact (never_enters_xvc_git_glob_lemma fixed f35 ign ch x p n r). Qed.
+
+Theorem par_never_enters_xvc_git f35 ign ch nth sched x p n r :
+  wf_tree (Dir ign ch) = true -> (1 <= nth)%nat ->
+  whitelists_special glob_matches true f35 ign ch = false ->
+  final (par_walk glob_matches true f35 nth common_ignore_patterns ign ch sched) = true ->
+  In x (c_out (par_walk glob_matches true f35 nth common_ignore_patterns ign ch sched)) -> x = p ++ n :: r -> is_special n = false.
+Proof.
+  exact (fun Hwf Hn => par_never_enters_xvc_git_glob_lemma true f35 ign ch nth sched x p n r Hwf
                          (local_of_fixed glob_matches true ign ch Hwf eq_refl) Hn).
 Qed.
 
 (* the same for any other matcher that finds a last component *)
-Theorem never_enters_xvc_git_any_matcher gm fixed ign ch x p n r :
-  matcher_finds_last_component gm -> whitelists_special gm fixed ign ch = false ->
-  In x (spec_walk gm fixed common_ignore_patterns ign ch) -> x = p ++ n :: r -> is_special n = false.
-Proof. exact (never_enters_xvc_git_lemma gm fixed ign ch x p n r). Qed.
+Theorem never_enters_xvc_git_any_matcher gm fixed f35 ign ch x p n r :
+  matcher_finds_last_component gm -> whitelists_special gm fixed f35 ign ch = false ->
+  In x (spec_walk gm fixed f35 common_ignore_patterns ign ch) -> x = p ++ n :: r -> is_special n = false.
+Proof. exact (never_enters_xvc_git_lemma gm fixed f35 ign ch x p n r). Qed.
 
 (* ---- 6. the queue discipline terminates ------------------------------------------------------------------------ *)
 (* [mu c] bounds the number of steps any schedule can take from c; a non-final configuration always has
    an enabled thread; so every run that keeps scheduling enabled threads reaches a final configuration,
    and a run that cannot be continued is final. *)
-Theorem par_walk_steps_bounded gm fixed c sched : (steps gm fixed c sched <= mu c)%nat.
-Proof. exact (steps_bounded gm fixed sched c). Qed.
+Theorem par_walk_steps_bounded gm fixed f35 c sched : (steps gm fixed f35 c sched <= mu c)%nat.
+Proof. exact (steps_bounded gm fixed f35 sched c). Qed.
 
-Theorem par_walk_progress gm fixed c : final c = false -> exists i, par_step gm fixed c i O <> None.
-Proof. exact (progress gm fixed c). Qed.
+Theorem par_walk_progress gm fixed f35 c : final c = false -> exists i, par_step gm fixed f35 c i O <> None.
+Proof. exact (progress gm fixed f35 c). Qed.
 
-Theorem par_walk_terminates gm fixed c :
-  exists sched, final (par_run gm fixed c sched) = true /\ (length sched <= mu c)%nat.
-Proof. exact (terminates_lemma gm fixed (mu c) c (le_n _)). Qed.
+Theorem par_walk_terminates gm fixed f35 c :
+  exists sched, final (par_run gm fixed f35 c sched) = true /\ (length sched <= mu c)%nat.
+Proof. exact (terminates_lemma gm fixed f35 (mu c) c (le_n _)). Qed.
 
-Theorem par_walk_stuck_is_final gm fixed c : (forall i k, par_step gm fixed c i k = None) -> final c = true.
-Proof. exact (stuck_final gm fixed c). Qed.
+Theorem par_walk_stuck_is_final gm fixed f35 c : (forall i k, par_step gm fixed f35 c i k = None) -> final c = true.
+Proof. exact (stuck_final gm fixed f35 c). Qed.
+
+(* ---- 7. no walk dies on a line of an ignore file (finding P36) ---------------------------------------------- *)
+(* [walk_panics]: the walk reads an ignore file (of a directory the reference walk enters) or a global line on
+   which Pattern::new panics.  Full statement: never. *)
+Definition C09_no_panic (f36 : bool) : Prop :=
+  forall gm fixed f35 globals ign ch, walk_panics gm fixed f35 f36 globals ign ch = false.
+
+(* [fixed_P36 = false]: `line[..line.len() - 1]` is not on a character boundary when the line ends in a
+   multi-byte character -- the root line "donn\u00e9es/\u00e9" *)
+Theorem walk_panics_refuted : ~ C09_no_panic false.
+Proof.
+  intros H. assert (E := H glob_matches true true common_ignore_patterns ex5_ign ex5_ch). vm_compute in E. discriminate E.
+Qed.
+
+(* [fixed_P36 = true] (the last CHARACTER is dropped): the full statement *)
+Theorem walk_never_panics_fixed : C09_no_panic true.
+Proof. exact walk_panics_fixed. Qed.
+
+(* for every setting of the switch: outside the boolean class [known_P36] (some ignore file of the tree has a
+   rule line that ends in a multi-byte character), which is empty when the repair is in *)
+Theorem walk_no_panic_outside_P36 gm fixed f35 f36 globals ign ch :
+  known_P36 f36 globals (Dir ign ch) = false -> walk_panics gm fixed f35 f36 globals ign ch = false.
+Proof. exact (walk_panics_outside gm fixed f35 f36 globals ign ch). Qed.
+
+Theorem P36_class_empty_when_fixed globals t : known_P36 true globals t = false.
+Proof. exact (known_P36_fixed globals t). Qed.
 
 (* ---- the statements are pinned ------------------------------------------------------------------------------------ *)
 Check pattern_local : forall gm pat D ign q,
   In pat (dir_patterns D ign) -> D <> [] -> forallb good_name D = true -> q <> [] -> forallb good_name q = true ->
   pat_hits gm true (render q) pat = true -> exists r, q = D ++ r /\ r <> [].
-Check par_walk_deterministic : forall gm globals ign ch, wf_tree (Dir ign ch) = true ->
+Check par_walk_deterministic : forall gm f35 globals ign ch, wf_tree (Dir ign ch) = true ->
   forall n sched, (1 <= n)%nat ->
-    let c := par_walk gm true n globals ign ch sched in
-    final c = true -> Permutation (c_out c) (spec_walk gm true globals ign ch) /\ NoDup (c_out c).
-Check par_walk_deterministic_outside_P17 : forall gm fixed globals ign ch, wf_tree (Dir ign ch) = true ->
+    let c := par_walk gm true f35 n globals ign ch sched in
+    final c = true -> Permutation (c_out c) (spec_walk gm true f35 globals ign ch) /\ NoDup (c_out c).
+Check par_walk_deterministic_outside_P17 : forall gm fixed f35 globals ign ch, wf_tree (Dir ign ch) = true ->
   known_P17 gm (Dir ign ch) = false ->
   forall n sched, (1 <= n)%nat ->
-    let c := par_walk gm fixed n globals ign ch sched in
-    final c = true -> Permutation (c_out c) (spec_walk gm fixed globals ign ch) /\ NoDup (c_out c).
-Check serial_eq_spec : forall gm globals ign ch, wf_tree (Dir ign ch) = true ->
-  exists out, serial_walk gm true (S (dir_count (Dir ign ch))) globals ign ch = Some out /\
-              Permutation out (spec_walk gm true globals ign ch) /\ NoDup out.
-Check never_enters_xvc_git : forall fixed ign ch x p n r,
-  whitelists_special glob_matches fixed ign ch = false ->
-  In x (spec_walk glob_matches fixed common_ignore_patterns ign ch) -> x = p ++ n :: r -> is_special n = false.
-Check par_walk_terminates : forall gm fixed c,
-  exists sched, final (par_run gm fixed c sched) = true /\ (length sched <= mu c)%nat.
+    let c := par_walk gm fixed f35 n globals ign ch sched in
+    final c = true -> Permutation (c_out c) (spec_walk gm fixed f35 globals ign ch) /\ NoDup (c_out c).
+Check serial_eq_spec : forall gm f35 globals ign ch, wf_tree (Dir ign ch) = true ->
+  exists out, serial_walk gm true f35 (S (dir_count (Dir ign ch))) globals ign ch = Some out /\
+              Permutation out (spec_walk gm true f35 globals ign ch) /\ NoDup out.
+Check never_enters_xvc_git : forall fixed f35 ign ch x p n r,
+  whitelists_special glob_matches fixed f35 ign ch = false ->
+  In x (spec_walk glob_matches fixed f35 common_ignore_patterns ign ch) -> x = p ++ n :: r -> is_special n = false.
+Check never_enters_xvc_git_fixed : forall fixed ign ch x p n r, wf_tree (Dir ign ch) = true ->
+  In x (spec_walk glob_matches fixed true common_ignore_patterns ign ch) -> x = p ++ n :: r -> is_special n = false.
+Check whitelist_class_empty_when_fixed : forall fixed ign ch, whitelists_special glob_matches fixed true ign ch = false.
+Check walk_never_panics_fixed : forall gm fixed f35 globals ign ch, walk_panics gm fixed f35 true globals ign ch = false.
+Check par_walk_terminates : forall gm fixed f35 c,
+  exists sched, final (par_run gm fixed f35 c sched) = true /\ (length sched <= mu c)%nat.
 
 (* ---- non-vacuity: the hypotheses are met by concrete, non-trivial trees ------------------------------------ *)
 (* ex1 (nested ignore file whose line names files of sibling directories) is well formed, lies in the
@@ -295,23 +359,23 @@ Proof. vm_compute. reflexivity. Qed.
 Example ex1_known : known_P17 glob_matches (Dir None ex1_ch) = true.
 Proof. vm_compute. reflexivity. Qed.
 Example ex1_fixed_runs :
-  let c1 := par_walk glob_matches true 2 common_ignore_patterns None ex1_ch (sched_one 0) in
-  let c2 := par_walk glob_matches true 2 common_ignore_patterns None ex1_ch (sched_one 1) in
+  let c1 := par_walk glob_matches true true 2 common_ignore_patterns None ex1_ch (sched_one 0) in
+  let c2 := par_walk glob_matches true true 2 common_ignore_patterns None ex1_ch (sched_one 1) in
   final c1 = true /\ final c2 = true /\ length (c_out c1) = 7%nat /\ length (c_out c2) = 7%nat /\
   In [s_a; s_foo] (c_out c1) /\ In [s_a; s_foo] (c_out c2) /\ ~ In [s_b; s_foo] (c_out c1) /\
-  length (spec_walk glob_matches true common_ignore_patterns None ex1_ch) = 7%nat.
+  length (spec_walk glob_matches true true common_ignore_patterns None ex1_ch) = 7%nat.
 Proof. vm_compute. repeat split; try tauto. intros H. repeat (destruct H as [H|H]; [discriminate|]). exact H. Qed.
 (* ex4: a nested ignore file with a line that hits only below its directory: outside the known class,
    also for the code without the fix, and the nested line does hide something *)
 Example ex4_outside : wf_tree (Dir None ex4_ch) = true /\ known_P17 glob_matches (Dir None ex4_ch) = false /\
-  ~ In [s_b; s_foo] (spec_walk glob_matches false common_ignore_patterns None ex4_ch) /\
-  In [s_b] (spec_walk glob_matches false common_ignore_patterns None ex4_ch).
+  ~ In [s_b; s_foo] (spec_walk glob_matches false false common_ignore_patterns None ex4_ch) /\
+  In [s_b] (spec_walk glob_matches false false common_ignore_patterns None ex4_ch).
 Proof. vm_compute. repeat split; try tauto. intros H. repeat (destruct H as [H|H]; [discriminate|]). exact H. Qed.
 (* an ignored directory: .xvc of ex3 is ignored by its ancestors' rules, and nothing below it is reported *)
 Example ex3_ignored_dir :
-  is_ignore (check glob_matches true (RB common_ignore_patterns ex3_ign ex3_ch [s_xvc]) [s_xvc]) = true /\
+  is_ignore (check glob_matches true true (RB common_ignore_patterns ex3_ign ex3_ch [s_xvc]) [s_xvc]) = true /\
   forallb (fun x => match x with n :: _ => negb (bytes_eqb n s_xvc) | [] => true end)
-          (spec_walk glob_matches true common_ignore_patterns ex3_ign ex3_ch) = true.
+          (spec_walk glob_matches true true common_ignore_patterns ex3_ign ex3_ch) = true.
 Proof. vm_compute. split; reflexivity. Qed.
 (* [matcher_finds_xvc_git], evaluated: "**/.xvc" and "**/.git" match the last component at depths 1..4
    (also next to look-alike names) *)
@@ -321,12 +385,43 @@ Example matcher_sample :
           [[]; [s_a]; [s_a; s_b]; [s_a; s_b; s_c]; [s_xvc; s_a]; [[46; 120; 118; 99; 105]; s_git; s_a; s_foo]; [s_a_1_]] = true.
 Proof. vm_compute. reflexivity. Qed.
 (* known class of the second finding: ex3 is inside, ex1 outside (and ex1 reports no special name) *)
-Example ex3_whitelists : whitelists_special glob_matches true ex3_ign ex3_ch = true.
+Example ex3_whitelists : whitelists_special glob_matches true false ex3_ign ex3_ch = true.
 Proof. vm_compute. reflexivity. Qed.
-Example ex1_no_whitelist : whitelists_special glob_matches true None ex1_ch = false /\ whitelists_special glob_matches false None ex1_ch = false.
+Example ex1_no_whitelist : whitelists_special glob_matches true false None ex1_ch = false /\ whitelists_special glob_matches false false None ex1_ch = false.
 Proof. vm_compute. split; reflexivity. Qed.
+(* with the repair of P35 the tree of the refutation reports neither a/.git nor .xvc, and still reports the rest
+   (the whitelist line keeps working for everything that is not excluded by the program itself) *)
+Example ex3_fixed :
+  whitelists_special glob_matches true true ex3_ign ex3_ch = false /\
+  spec_walk glob_matches true true common_ignore_patterns ex3_ign ex3_ch = [[[46; 120; 118; 99; 105; 103; 110; 111; 114; 101]]; [s_a]; [s_a; [117; 46; 116; 120; 116]]] /\
+  In [s_a; s_git; s_head] (spec_walk glob_matches true false common_ignore_patterns ex3_ign ex3_ch).
+Proof. vm_compute. repeat split; tauto. Qed.
+(* P36: ex5 is in the known class without the repair and outside it with the repair; the pattern the repaired
+   Pattern::new builds for the line is the one the model computes on bytes, and it hides donn\u00e9es/\u00e9 only *)
+Example ex5_class : wf_tree (Dir ex5_ign ex5_ch) = true /\
+  known_P36 false common_ignore_patterns (Dir ex5_ign ex5_ch) = true /\ known_P36 true common_ignore_patterns (Dir ex5_ign ex5_ch) = false /\
+  known_P36 false common_ignore_patterns (Dir None ex1_ch) = false.
+Proof. vm_compute. repeat split; reflexivity. Qed.
+Example ex5_fixed_walk :
+  p_glob (pattern_new (SFile []) l_donnees_e) = [c_slash; c_star; c_star; c_slash] ++ l_donnees_e /\
+  spec_walk glob_matches true true common_ignore_patterns ex5_ign ex5_ch
+  = [[[46; 120; 118; 99; 105; 103; 110; 111; 114; 101]]; [s_donnees]; [s_donnees; [120; 46; 116; 120; 116]]].
+Proof. vm_compute. split; reflexivity. Qed.
+(* the matcher works on bytes, as fast-glob does: '?' and a class consume ONE byte, so "?" does not match the
+   two-byte character \u00e9 and "??" does; '*' runs over any bytes but '/' *)
+Example bytes_not_chars :
+  glob_matches [c_star; c_star; c_slash; c_q] (c_slash :: s_e_acute) = false /\
+  glob_matches [c_star; c_star; c_slash; c_q; c_q] (c_slash :: s_e_acute) = true /\
+  glob_matches [c_star; c_star; c_slash; c_star; 169] (c_slash :: s_donnees ++ c_slash :: s_e_acute) = true /\
+  glob_matches [c_star; c_star; c_slash; c_lb; 195; c_rb; c_lb; 160; c_dash; 170; c_rb] (c_slash :: s_e_acute) = true.
+Proof. vm_compute. repeat split; reflexivity. Qed.
+(* str::trim_end strips Unicode white space: U+00A0, U+3000 and ASCII blanks after "a", but not the bytes of \u00e9 *)
+Example trim_end_unicode :
+  trim_end [97; 194; 160; 32; 227; 128; 128; 9] = [97] /\ trim_end (s_e_acute ++ [226; 128; 137]) = s_e_acute /\
+  trim_end [97; 195; 160] = [97; 195; 160] /\ all_ws [194; 133; 32] = true /\ all_ws [195; 133] = false.
+Proof. vm_compute. repeat split; reflexivity. Qed.
 (* termination: the bound for ex1 with two threads *)
-Example ex1_mu : mu (par_init glob_matches true 2 common_ignore_patterns None ex1_ch) = 19%nat.
+Example ex1_mu : mu (par_init glob_matches true true 2 common_ignore_patterns None ex1_ch) = 19%nat.
 Proof. vm_compute. reflexivity. Qed.
 
 Print Assumptions pattern_local.
@@ -345,6 +440,9 @@ Print Assumptions ignored_dir_hides_subtree.
 Print Assumptions par_ignored_dir_hides_subtree.
 Print Assumptions never_enters_xvc_git_refuted.
 Print Assumptions matcher_finds_xvc_git.
+Print Assumptions never_enters_xvc_git_fixed.
+Print Assumptions par_never_enters_xvc_git_fixed.
+Print Assumptions whitelist_class_empty_when_fixed.
 Print Assumptions never_enters_xvc_git.
 Print Assumptions par_never_enters_xvc_git.
 Print Assumptions never_enters_xvc_git_any_matcher.
@@ -352,3 +450,7 @@ Print Assumptions par_walk_steps_bounded.
 Print Assumptions par_walk_progress.
 Print Assumptions par_walk_terminates.
 Print Assumptions par_walk_stuck_is_final.
+Print Assumptions walk_panics_refuted.
+Print Assumptions walk_never_panics_fixed.
+Print Assumptions walk_no_panic_outside_P36.
+Print Assumptions P36_class_empty_when_fixed.
